@@ -137,6 +137,11 @@
             let o = old(self).instances@[key_of(instance)];
             f.from_grpc && f.client_id == o.client_id && f.from_cluster == o.from_cluster
         }),
+        // C12: the previous owner is reported exactly when the address had a (non-empty) owner and the stored owner differs from it,
+        // so that the caller can drop the key from that client's connection record
+        r.1 == (if old(self).instances@.contains_key(key_of(instance)) && old(self).instances@[key_of(instance)].client_id@.len() > 0   // @C12
+                    && final(self).instances@[key_of(instance)].client_id@ != old(self).instances@[key_of(instance)].client_id@
+                { Some(old(self).instances@[key_of(instance)].client_id) } else { None }),
         final(self).instances@[key_of(instance)].last_modified_millis == instance.last_modified_millis,   // @C13
         // C13: a heart-beating HTTP instance is (re)armed on the health clock at its heartbeat time
         (timeout_enabled(*final(self).instances@[key_of(instance)]) && !from_sync) ==>   // @C13
